@@ -427,6 +427,27 @@ impl Prop for C15 {
             check_text(sh, &r.text, source, true)
         });
         crate::props::shapes::run_all(sh, &mut |sh, text, source| check_text(sh, text, source, true));
+        // dense position grids: the same kind of construct at hundreds of (row, column) positions of one program;
+        // the generated labels of two constructs must never coincide, and "every branch lands where intended" means
+        // that each construct prints its own token exactly once
+        {
+            use crate::props::shapes::{GRID_KINDS, grid_program};
+            let variants = sh.tier.pick(4, 24);
+            for k in 0..GRID_KINDS.len() * variants {
+                if !sh.mine(k as u64) {
+                    continue;
+                }
+                let (text, expected) = grid_program(k % GRID_KINDS.len(), k / GRID_KINDS.len());
+                let source = format!("grid:{}", GRID_KINDS[k % GRID_KINDS.len()]);
+                let r = check_text(sh, &text, &source, true).and_then(|_| match impl_run::run_src(&text, &RunOpts::budget(400_000)) {
+                    Ok(out) if out.stdout_str() != expected => Err(Violation::new(format!("dynamic:branch-lands-elsewhere:{}", source), "constructs at different positions interfere: not every construct ran its own body exactly once", json!({"program": text, "source": source})).exp_obs(expected.chars().take(200).collect::<String>(), out.stdout_str().chars().take(200).collect::<String>())),
+                    _ => Ok(()),
+                });
+                if !sh.report(r) {
+                    return;
+                }
+            }
+        }
     }
     fn replay(&self, sh: &mut Shard, inputs: &Value) -> Result<(), Violation> {
         let text = inputs["program"].as_str().unwrap_or("");
